@@ -384,12 +384,14 @@ func prodHighThresholdFilter(usage *NodeUsage, threshold NodeThresholds) bool {
 }
 
 func filterNodes(nodeSelector *metav1.LabelSelector, nodes []*corev1.Node, processedNodes sets.String) ([]*corev1.Node, error) {
-	if nodeSelector == nil {
-		return nodes, nil
-	}
-	selector, err := metav1.LabelSelectorAsSelector(nodeSelector)
-	if err != nil {
-		return nil, err
+	// a pool without selector takes every node, but like any other pool not the ones an earlier pool already processed
+	selector := labels.Everything()
+	if nodeSelector != nil {
+		var err error
+		selector, err = metav1.LabelSelectorAsSelector(nodeSelector)
+		if err != nil {
+			return nil, err
+		}
 	}
 	r := make([]*corev1.Node, 0, len(nodes))
 	for _, v := range nodes {
